@@ -1,4 +1,4 @@
-From DV Require Import RefName.
+From DV Require Import RefName Refs.
 Require Extraction.
 Require Import ExtrOcamlBasic.
-Extraction "model.ml" check_ref_format git_check_refname_format check_refname.
+Extraction "model.ml" check_ref_format git_check_refname_format check_refname rstep disk_init dread getitem names.
